@@ -198,10 +198,10 @@ Open Scope string_scope.
 Definition cases : list (%s) := [
 %s
 ].
-Eval vm_compute in (%s cases).
+Eval vm_compute in ((%s cases ++ [(length cases, 0%%nat)])%%list).
 """
 
-PAIR = re.compile(r"\(\s*(\d+)\s*,\s*(\d+)\s*\)")
+PAIR = re.compile(r"\(\s*(\d+)(?:%nat)?\s*,\s*(\d+)(?:%nat)?\s*\)")
 
 
 def eval_cases(pid, imports, case_type, runner, coq_cases, shard=400, tag="cases"):
@@ -234,8 +234,14 @@ def eval_cases(pid, imports, case_type, runner, coq_cases, shard=400, tag="cases
             if not m:
                 errors.append({"shard": os.path.relpath(path, VERIF), "rc": rc, "out": out[-3000:]})
                 continue
-            for i, c in PAIR.findall(m.group(1)):
-                results.append((k + int(i), int(c)))
+            pairs = [(int(i), int(c)) for i, c in PAIR.findall(m.group(1))]
+            # sentinel (number of cases, 0) proves that the output was parsed completely
+            n_here = min(shard, len(coq_cases) - k)
+            if not pairs or pairs[-1] != (n_here, 0):
+                errors.append({"shard": os.path.relpath(path, VERIF), "rc": rc, "out": "sentinel missing: " + out[-1500:]})
+                continue
+            for i, c in pairs[:-1]:
+                results.append((k + i, c))
     return results, errors
 
 
